@@ -1125,6 +1125,21 @@ class Wtp:
                 included_map[
                     used_page.title.removeprefix(template_ns_local_name + ":")
                 ].add(page.title)
+            if page.redirect_to is not None:
+                # A redirect and its target stand for the same template: the
+                # mark of either one carries over to the other, and from there
+                # to their includers and further redirects.  The target is
+                # resolved through the page store like a used template name.
+                target_page = self.get_page(page.redirect_to, template_ns_id)
+                if target_page is not None:
+                    included_map[
+                        target_page.title.removeprefix(
+                            template_ns_local_name + ":"
+                        )
+                    ].add(page.title)
+                    included_map[
+                        page.title.removeprefix(template_ns_local_name + ":")
+                    ].add(target_page.title)
             if pre_expand:
                 self.set_template_pre_expand(page.title)
             if pre_expand or page.need_pre_expand:
@@ -1139,7 +1154,7 @@ class Wtp:
         # nested template expansions could conflict)
 
         # Propagate pre_expand from lower-level templates to all templates that
-        # refer to them
+        # refer to them (by inclusion or as redirect source/target)
         while len(expand_stack) > 0:
             page = expand_stack.pop()
             title_no_ns_prefix = page.title.removeprefix(
@@ -1157,27 +1172,6 @@ class Wtp:
                 self.set_template_pre_expand(template.title)
                 expand_stack.append(template)
 
-        # Also set `need_pre_expand` value for redirected source templates
-        query_str = """
-        UPDATE pages SET need_pre_expand = 1
-        FROM pages AS dest
-        WHERE pages.redirect_to = dest.title
-        AND pages.namespace_id = dest.namespace_id
-        AND dest.need_pre_expand = 1
-        AND pages.need_pre_expand = 0
-        """
-        self.db_conn.execute(query_str)
-
-        # set `need_pre_expand` value to redirected destination page
-        query_str = """
-        UPDATE pages SET need_pre_expand = 1
-        FROM pages AS source
-        WHERE pages.title = source.redirect_to
-        AND pages.namespace_id = source.namespace_id
-        AND source.need_pre_expand = 1
-        AND pages.need_pre_expand = 0
-        """
-        self.db_conn.execute(query_str)
         self.db_conn.commit()
         # The flags of memoised pages have changed
         self.get_page.cache_clear()
